@@ -360,6 +360,19 @@ func (e *Env) evalIdent(name string) Value {
 // lookupLocal finds the local variable visible under the given name.
 func (e *Env) lookupLocal(name string) (Value, bool) {
 	x := e.x
+	if name == "rangecount" && e.loop != nil {
+		// number of completed iterations of the current range over a map
+		for _, ins := range e.loop.Header.Instrs {
+			if nx, ok := ins.(*ssa.Next); ok && !nx.IsString {
+				if rg, ok := nx.Iter.(*ssa.Range); ok {
+					if vis, ok := e.st.ghost[visitedName(rg)]; ok {
+						mt := rg.X.Type().Underlying().(*types.Map)
+						return scalar(types.Typ[types.Int], x.keySetSize(x.mapKeySort(mt), vis.one())), true
+					}
+				}
+			}
+		}
+	}
 	if name == "rangeindex" && e.loop != nil {
 		// hidden index of the current range loop: the Alloc stored to in the header block
 		for _, ins := range e.loop.Header.Instrs {
